@@ -240,6 +240,39 @@ struct Violation
     throw Violation{sig, buf};
 }
 
+// Deferred violations: recorded from places that must not throw (destructors, deallocate inside a destructor);
+// the harness polls check_deferred() after every step and exec_plan() polls once more at the end of the run.
+struct Deferred
+{
+    bool pending = false;
+    Violation v;
+};
+static inline Deferred &deferred()
+{
+    static Deferred d;
+    return d;
+}
+static inline void defer_violation(const std::string &sig, const char *fmt, ...) __attribute__((format(printf, 2, 3)));
+static inline void defer_violation(const std::string &sig, const char *fmt, ...)
+{
+    if (deferred().pending) return; // first one wins
+    char buf[1024];
+    va_list ap;
+    va_start(ap, fmt);
+    vsnprintf(buf, sizeof buf, fmt, ap);
+    va_end(ap);
+    deferred().pending = true;
+    deferred().v = Violation{sig, buf};
+}
+static inline void check_deferred()
+{
+    if (deferred().pending)
+    {
+        deferred().pending = false;
+        throw deferred().v;
+    }
+}
+
 struct Result
 {
     bool violation = false;
@@ -323,9 +356,11 @@ static inline Result exec_plan(Harness &h, const Plan &full, Trace &tr)
     size_t wi = (size_t)mod(full.cfg[0], (int64_t)h.worlds.size());
     Plan p = full;
     p.cfg.erase(p.cfg.begin());
+    deferred().pending = false;
     try
     {
         r = h.worlds[wi]->execute(p, tr);
+        check_deferred();
     }
     catch (const Violation &v)
     {
